@@ -240,10 +240,17 @@ def run_case(case: Dict[str, Any]) -> Dict[str, Any]:
             if q.get('last') == 'close':
                 hdrs.append((rng.choice([b'Connection', b'connection']), b'close'))
             body = q['body'].encode()
-            if body or q['method'] in ('POST', 'PUT', 'PATCH'):
+            wire_body = body
+            if q.get('chunked') and body and q.get('last') != 'http10':
+                # the same upload as a chunked body (the reverse proxy re-encodes it in units of its own buffer size)
+                hdrs.append((b'Transfer-Encoding', b'chunked'))
+                lay = q['chunked']
+                wire_body = b''.join(b'%x\r\n' % len(body[o:o + lay]) + body[o:o + lay] + b'\r\n' for o in range(0, len(body), lay)) + b'0\r\n\r\n'
+                obs['chunked_uploads'] = obs.get('chunked_uploads', 0) + 1
+            elif body or q['method'] in ('POST', 'PUT', 'PATCH'):
                 hdrs.append((b'Content-Length', b'%d' % len(body)))
             rng.shuffle(hdrs)
-            raw = b'%s %s HTTP/%s\r\n' % (q['method'].encode(), path, b'1.0' if q.get('last') == 'http10' else b'1.1') + b''.join(k + b': ' + v + b'\r\n' for k, v in hdrs) + b'\r\n' + body
+            raw = b'%s %s HTTP/%s\r\n' % (q['method'].encode(), path, b'1.0' if q.get('last') == 'http10' else b'1.1') + b''.join(k + b': ' + v + b'\r\n' for k, v in hdrs) + b'\r\n' + wire_body
             want = reference_route(_table, path)
             mclass = 'none' if want is None else ('several' if sum(1 for r in _table if re.match(r['regex'], path.decode())) > 1 else 'one')
             sets['match_classes'].add(mclass + ':' + (want['kind'] if want else '-'))
@@ -460,7 +467,9 @@ def cases(tier: str, seed: int):
             # request bodies beyond one upstream flush (64 KiB), towards plain and TLS upstreams
             for q in reqs:
                 if q['method'] in ('POST', 'PUT', 'PATCH'):
-                    q['body'] = 'B' * rng.choice([65535, 65537, 140000, 1 << 20])
+                    q['body'] = 'B' * rng.choice([65535, 65537, 131072, 140000, 262144, 1 << 20])
+                    if rng.random() < 0.5:
+                        q['chunked'] = rng.choice([4096, 65536, 100000, 131072, 1 << 20])
             if shape == 5:
                 for r_ in routes:
                     for u_ in r_.get('urls', []):
